@@ -214,11 +214,25 @@ def trace_set(th, tier, seed):
             res["records"] = sum(1 for _ in open(tf))
             return res
 
+        def det(job):
+            fam, k = job
+            out = os.path.join(d, "det-" + fam)
+            n, steps = (2, 60) if tier == "quick" else (6, 120)
+            run_harness(binp, out, ["-mode", "random", "-family", fam, "-seed", str(seed + 7919), "-n", str(n), "-steps", str(steps), "-det", str(k)])
+            tf = os.path.join(out, "%s-%d-0.ndjson" % (fam, seed + 7919))
+            res = run_tlc(sd, tf)
+            res["family"] = "det:" + fam
+            res["sched"] = os.path.join(out, "%s-%d-0.sched.json" % (fam, seed + 7919))
+            res["records"] = sum(1 for _ in open(tf))
+            return res
+
         t0 = time.time()
         results = []
+        k = 3 if tier == "quick" else 8
         with concurrent.futures.ThreadPoolExecutor(max_workers=max(2, NCPU - 2)) as ex:
-            for res in ex.map(one, jobs):
-                results.append(res)
+            futs = [ex.submit(one, j) for j in jobs] + [ex.submit(det, (f, k)) for f in ("full", "rewards", "redeleg", "gov", "power")]
+            for f in futs:
+                results.append(f.result())
         extra = extra_runs(binp, sd, d, tier, seed)
         results.extend(extra)
         results.extend(tlc_schedules(binp, sd, d, tier, seed))
